@@ -18,7 +18,7 @@ import time
 VERIF = os.path.dirname(os.path.dirname(os.path.abspath(__file__)))
 REPO = os.environ.get("VERIF_REPO", "/repo")
 SEEDED = os.path.join(VERIF, "seeded")
-TARGET = "/tmp/seeded-target"
+TARGET = os.environ.get("SEEDED_TARGET", "/tmp/seeded-target")
 
 
 def sh(cmd, cwd=None, env=None, timeout=None):
